@@ -15,20 +15,19 @@ between the shell and the recorded output:
   `C13_no_strip_only_crlf`, `C13_strip_after_crlf`);
 * the single-script mode: splitting the captured streams at the divider lines gives back, for every
   test, exactly its payload (terminated or not) and exit code (`C13_divider_roundtrip_partial`,
-  `C13_divider_roundtrip_combined_partial`, `C13_stream_roundtrip_partial`).
+  `C13_divider_roundtrip_combined_partial`, `C13_stream_roundtrip_partial`,
+  `C13_divider_lookalike_is_output`).
 
 NOT proved (exercised with real processes by the harness): what bash does with the script text,
 that the streams it writes are `joinStream` of the payloads, pipes, `Redirection::Merge` order,
 stack depth / memory.
 
-Full-strength statement of the round trip that is FALSE for the code as it is:
-
-    ∀ salt tests, executeAll tests.length … (joinStream salt 0 tests) … = ok tests      -- no guard
-
-because `parse_divider_bytes` looks for the divider prefix anywhere in a line and never compares the
-salt: a payload that contains `~~~~~~~~EXECDIVIDER::` is taken for a divider
-(`C13_divider_roundtrip_fails_on_witness`; oracle class `C13:divider-lookalike`). The theorems carry
-the decidable guard `noDivider payload`.
+Guard of the round trip: no payload contains the divider start OF THIS EXECUTION,
+`~~~~~~~~EXECDIVIDER::<salt>::` (`noSalted salt payload`; the salt is 20 random alphanumeric
+characters drawn per execution, so a test cannot know it). Payloads may contain the bare prefix or
+complete divider lines with any other salt: `C13_divider_lookalike_is_output` (regression for the
+repaired defect "the parser ignored the salt", fix 05d9dbd). Without any guard the statement is
+false for every protocol that marks boundaries in-band (`C13_divider_guard_needed`).
 -/
 namespace Scrut.Props.C13
 open Scrut.Template Scrut.Crlf Scrut.Divider
@@ -104,46 +103,60 @@ theorem C13_strip_after_crlf (keepCrlf : Option Bool) (strip : List UInt8 → Op
 
 /-! ## single-script mode -/
 
-/-- One stream: for any salt without `:` and LF, payloads (terminated by LF or not, empty, any
-bytes) that do not contain the divider prefix, exit codes below 2^31: splitting the stream in which
-every payload is followed by its divider line returns exactly the payloads and exit codes.
-(`limit` is `none` for STDOUT, `some n` with enough room for STDERR.) -/
-theorem C13_stream_roundtrip_partial (limit : Option Nat) (salt : Bytes) (hs : COLON ∉ salt) (hsl : Divider.LF ∉ salt)
+/-- One stream: for any salt without `:`, `~` and LF (the real one is alphanumeric), payloads
+(terminated by LF or not, empty, any bytes) that do not contain the divider start of this
+execution, exit codes below 2^31: splitting the stream in which every payload is followed by its
+divider line returns exactly the payloads and exit codes. (`limit` is `none` for STDOUT, `some n`
+with enough room for STDERR.) -/
+theorem C13_stream_roundtrip_partial (limit : Option Nat) (salt : Bytes) (hs : COLON ∉ salt)
+    (hsl : Divider.LF ∉ salt) (h126 : (126 : UInt8) ∉ salt)
     (tests : List (Bytes × Nat))
-    (hg : ∀ t ∈ tests, noDivider t.1 = true ∧ t.2 < 2 ^ 31) (hlen : tests.length ≤ 2 ^ 64)
+    (hg : ∀ t ∈ tests, noSalted salt t.1 = true ∧ t.2 < 2 ^ 31) (hlen : tests.length ≤ 2 ^ 64)
     (hlim : ∀ n, limit = some n → tests.length ≤ n) :
-    iterate limit (joinStream salt 0 tests) = .ok (tests.map fun t => (t.1, (t.2 : Int))) := by
+    iterate salt limit (joinStream salt 0 tests) = .ok (tests.map fun t => (t.1, (t.2 : Int))) := by
   unfold iterate splitAtNewline
-  exact iterLines_joinStream limit salt hs hsl tests 0 hg (by simpa using hlen) (by simpa using hlim)
+  exact iterLines_joinStream limit salt hs hsl h126 tests 0 hg (by simpa using hlen) (by simpa using hlim)
 
 /-- `execute_all`, separated streams: every test gets back its own stdout, stderr and exit code.
-Guards: payloads free of the divider prefix, no test ends with the skip code. -/
-theorem C13_divider_roundtrip_partial (salt : Bytes) (hs : COLON ∉ salt) (hsl : Divider.LF ∉ salt) (skip scriptExit : Int)
+Guards: payloads free of this execution's divider start, no test ends with the skip code. -/
+theorem C13_divider_roundtrip_partial (salt : Bytes) (hs : COLON ∉ salt) (hsl : Divider.LF ∉ salt)
+    (h126 : (126 : UInt8) ∉ salt) (skip scriptExit : Int)
     (tests : List (Bytes × Bytes × Nat)) (hse : scriptExit ≠ skip) (hlen : tests.length ≤ 2 ^ 64)
-    (hg : ∀ t ∈ tests, noDivider t.1 = true ∧ noDivider t.2.1 = true ∧ t.2.2 < 2 ^ 31 ∧ (t.2.2 : Int) ≠ skip) :
-    executeAll tests.length false skip scriptExit
+    (hg : ∀ t ∈ tests, noSalted salt t.1 = true ∧ noSalted salt t.2.1 = true ∧ t.2.2 < 2 ^ 31 ∧ (t.2.2 : Int) ≠ skip) :
+    executeAll salt tests.length false skip scriptExit
         (joinStream salt 0 (tests.map fun t => (t.1, t.2.2)))
         (joinStream salt 0 (tests.map fun t => (t.2.1, 0))) =
       .ok (tests.map fun t => ⟨t.1, t.2.1, (t.2.2 : Int)⟩) :=
-  executeAll_separate salt hs hsl skip scriptExit tests hse hlen hg
+  executeAll_separate salt hs hsl h126 skip scriptExit tests hse hlen hg
 
 /-- `execute_all`, merged streams (`output_stream: combined`) -/
 theorem C13_divider_roundtrip_combined_partial (salt : Bytes) (hs : COLON ∉ salt) (hsl : Divider.LF ∉ salt)
+    (h126 : (126 : UInt8) ∉ salt)
     (skip scriptExit : Int) (tests : List (Bytes × Nat)) (stderr : Bytes) (hse : scriptExit ≠ skip)
     (hlen : tests.length ≤ 2 ^ 64)
-    (hg : ∀ t ∈ tests, noDivider t.1 = true ∧ t.2 < 2 ^ 31 ∧ (t.2 : Int) ≠ skip) :
-    executeAll tests.length true skip scriptExit (joinStream salt 0 tests) stderr =
+    (hg : ∀ t ∈ tests, noSalted salt t.1 = true ∧ t.2 < 2 ^ 31 ∧ (t.2 : Int) ≠ skip) :
+    executeAll salt tests.length true skip scriptExit (joinStream salt 0 tests) stderr =
       .ok (tests.map fun t => ⟨t.1, [], (t.2 : Int)⟩) :=
-  executeAll_combined salt hs hsl skip scriptExit tests stderr hse hlen hg
+  executeAll_combined salt hs hsl h126 skip scriptExit tests stderr hse hlen hg
 
-/-- a payload line that looks like a divider (ANY salt: here `X`, the script's is `S`) -/
+/-- a payload line that looks like a divider, with the salt `X` (the execution's is `S`) -/
 def lookalike : Bytes := PREFIX ++ [88, 58, 58, 48, 58, 58, 48, 10]
 
-/-- the guard is needed: one test that prints a divider-shaped line and exits 0 is not given its
-output back; the whole execution fails (`ExecutionError::failed(0, "unexpected result …")`) -/
-theorem C13_divider_roundtrip_fails_on_witness :
-    executeAll 1 true 80 0 (joinStream [83] 0 [(lookalike, 0)]) [] = .failed 0 ∧
-    noDivider lookalike = false := by
+/-- regression (fix 05d9dbd): output that looks like a divider -- a complete divider line with a
+foreign salt, the bare prefix in the middle of a line, the bare prefix as unterminated last line --
+is output: it satisfies the guard and every test gets its bytes and exit code back -/
+theorem C13_divider_lookalike_is_output :
+    noSalted [83] lookalike = true ∧
+    executeAll [83] 3 true 80 0
+        (joinStream [83] 0 [(lookalike, 0), ([115, 101, 101, 32] ++ PREFIX ++ [32, 120, 10], 3), (PREFIX, 7)]) [] =
+      .ok [⟨lookalike, [], 0⟩, ⟨[115, 101, 101, 32] ++ PREFIX ++ [32, 120, 10], [], 3⟩, ⟨PREFIX, [], 7⟩] := by
+  decide
+
+/-- a guard is needed by any in-band protocol: a payload that contains the divider start with the
+execution's own salt is split there -/
+theorem C13_divider_guard_needed :
+    noSalted [83] (needle [83] ++ [48, 58, 58, 48, 10]) = false ∧
+    executeAll [83] 1 true 80 0 (joinStream [83] 0 [(needle [83] ++ [48, 58, 58, 48, 10], 0)]) [] = .failed 0 := by
   decide
 
 /-! ## non-vacuity -/
@@ -160,11 +173,11 @@ example : render (PH_PERSIST ++ [' '] ++ PH_EXPR) [] [] [] false (PH_PERSIST ++ 
     ['1', ' '] ++ PH_PERSIST ++ PH_EXPR := by decide
 
 /-- the guards of the round trip are satisfiable: unterminated, empty and binary payloads -/
-example : executeAll 3 false 80 0
+example : executeAll [83] 3 false 80 0
     (joinStream [83] 0 [([97, 10, 98], 3), ([], 0), ([0, 255, 10], 255)])
     (joinStream [83] 0 [([101], 0), ([], 0), ([126, 126, 10, 10], 0)]) =
     .ok [⟨[97, 10, 98], [101], 3⟩, ⟨[], [], 0⟩, ⟨[0, 255, 10], [126, 126, 10, 10], 255⟩] := by decide
 
-example : noDivider [126, 126, 126, 126, 126, 126, 126, 126, 10] = true := by decide
+example : noSalted [83] ([126, 126, 126, 126, 126, 126, 126, 126, 10] ++ PREFIX ++ [88, 58, 58]) = true := by decide
 
 end Scrut.Props.C13
